@@ -7,7 +7,7 @@ CONSTANTS
   SideSet = {"req", "resp"}
   EndSet = {"eof", "err", "close", "closeerr"}
   MaxEnvs = 2
-  MaxTotal = 12
+  MaxTotal = 10
   ChunkSet = {1, 2, 3, 5, 7, 12}
   MaxPost = 1
   MaxOther = 1
